@@ -665,3 +665,10 @@ impl Send {
         self.is_extended_connect_protocol_enabled
     }
 }
+
+#[cfg(feature = "verif")]
+impl Send {
+    pub(super) fn verif_fill(&self, s: &mut crate::verif::VerifStats) {
+        self.prioritize.verif_fill(s);
+    }
+}
